@@ -8,8 +8,9 @@ GM = "jxl_modular::image::ModularImageDestination::<S>::prepare_gmodular"
 GR = "jxl_modular::image::ModularImageDestination::<S>::prepare_groups"
 
 
-def closure_sig(f):
-    """operators, loaded field names and constants of a (small) predicate closure, in block order"""
+def closure_sig(f, prog=None, depth=0):
+    """operators, loaded field names and constants of a (small) predicate closure; calls to functions of the same crate are replaced
+    by the callee's own signature (a predicate moved into a shared helper is still the same predicate)"""
     out = []
     for blk in f.blocks:
         if blk[2]:
@@ -37,7 +38,12 @@ def closure_sig(f):
                         out.append("field:" + str(n))
         t = blk[1]
         if t[0] == "call" and callee(t):
-            out.append("call:" + callee(t)["fn"].split("::")[-1])
+            c = callee(t)
+            g = prog.fn(c.get("res") or c["fn"]) if prog is not None and depth < 3 else None
+            if g is not None and g.path.split("::")[0].lstrip("<&") == f.path.split("::")[0].lstrip("<&") and len(g.blocks) < 60:
+                out.extend(closure_sig(g, prog, depth + 1))
+            else:
+                out.append("call:" + c["fn"].split("::")[-1])
     return sorted(out)
 
 
@@ -60,7 +66,7 @@ def rule_chansplit(ctx):
     for root, fs in fams.items():
         for f in fs:
             if f.local_ty(0) == "bool":
-                sig = closure_sig(f)
+                sig = closure_sig(f, ctx.prog)
                 if any(x == "field:width" for x in sig) and any(x == "field:height" for x in sig):
                     preds[root] = (f, sig)
     if GM not in preds or GR not in preds:
